@@ -30,8 +30,9 @@ type IV int
 func (a IV) Less(b interface{}) bool { return a < b.(IV) }
 
 type KV struct {
-	K   int
-	Tag string
+	K    int
+	Tag  string
+	Flag int
 }
 
 func (a KV) Less(b interface{}) bool { return a.K < b.(KV).K }
@@ -129,7 +130,13 @@ type runner struct {
 
 func elem(cfg config, v int, n int) morass.LessInterface {
 	if cfg.Struct {
-		return KV{v, fmt.Sprint("t", n)}
+		// payload fields take their zero value for some elements (an encoding that omits zero fields
+		// must not let them inherit a neighbour's)
+		tag := ""
+		if n%2 == 1 {
+			tag = fmt.Sprint("t", n)
+		}
+		return KV{v, tag, n % 3}
 	}
 	return IV(v)
 }
